@@ -19,7 +19,7 @@ import types
 
 from .. import common, fillerlab, iterscen, par, rustlab
 from ..common import Result, Violation
-from ..symx import CexFound, ConcreteEngine, Stats, explore
+from ..symx import CexFound, ConcreteEngine, Inconclusive, Stats, explore
 from . import c13
 
 PROP = "C07"
@@ -78,6 +78,8 @@ def _cell(cell):
         return c13.run_config(cell["pocomp"])
     if cell.get("real"):
         return real_sweep(cell)
+    if cell.get("mirx"):
+        return mirx_fail(cell)
     with common.scratch_dir("vt07_") as tmp:
         built = iterscen.build(tmp, cell["layout"])
         return explore(lambda e: scenario(e, cell, built))
@@ -175,6 +177,39 @@ def real_sweep(cell):
     return st
 
 
+def mirx_fail(cell):
+    """Rust reader protocol from the MIR of the current sources (see C15: a Kahn network, one schedule decides all timings):
+    the mapped function panics on one item (= an unreadable shard): next() must panic for the consumer before or at that
+    item's turn - never return None early, never block; after drop no worker is left blocked."""
+    from .. import mirx
+    st = Stats()
+    mir, info = rustlab.emit_mir()
+    fns = mirx.functions(mir)
+    N, TM = cell["N"], cell["T"]
+    for n in range(1, N + 1):
+        for T in range(1, TM + 1):
+            for j in range(n):
+                st.paths += 1
+                st.proves += 1
+                try:
+                    r = mirx.run_protocol(fns, n, T, n + 2, fail_item=j)
+                except Inconclusive as inc:
+                    st.inconclusive.append(f"mirx n={n} T={T} fail={j}: {inc}")
+                    continue
+                res = r["results"]
+                ok = bool(res) and isinstance(res[-1], tuple) and res[-1][0] == "PANIC" and res[:-1] == [("res", i) for i in range(len(res) - 1)] \
+                    and len(res) - 1 <= j and r["outcome"] == "done"
+                if ok:
+                    st.proved += 1
+                else:
+                    what = "blocks forever" if r["outcome"] != "done" else f"next() returned {res}"
+                    st.cex.append(dict(msg=f"native reader protocol (MIR): {n} shards, {T} threads, shard #{j} unreadable (worker panics): {what} "
+                                           f"instead of raising", model={}, info=dict(kind="rust-protocol-" + ("hang" if r["outcome"] != "done" else "silent-truncation"),
+                                                                                     case=dict(ft="fb", compression="", kind="deleted", pos=("first" if j == 0 else "last" if j == n - 1 else "middle"),
+                                                                                               iface="rust", shuffle=0, T=T))))
+    return st
+
+
 def cells(tier):
     out = []
     layouts = ["short-last", "singles"] + (["four-shards", "nested"] if tier == "thorough" else [])
@@ -189,6 +224,7 @@ def cells(tier):
     pc = [dict(T=1, nmax=4, variant="fail"), dict(T=2, nmax=3, variant="fail")] if tier == "quick" else \
          [dict(T=1, nmax=6, variant="fail"), dict(T=2, nmax=4, variant="fail"), dict(T=3, nmax=2, variant="fail")]
     out += [dict(pocomp=c) for c in pc]
+    out += [dict(mirx=1, N=(5 if tier == "quick" else 8), T=(4 if tier == "quick" else 6))]
     if tier == "quick":
         out += [dict(real=1, formats=[("fb", "")], ifaces=["rust"], shuffles=[0], Ts=[1, 2, 5]),
                 dict(real=1, formats=[("fb", "")], ifaces=["concurrent"], shuffles=[0, 3], Ts=[1, 2]),
